@@ -82,8 +82,14 @@ CHECKS["C14"] = dict(level="translation_validation", engine="E3 grid",
    note="K=2 quick, 3 thorough. JWT requirements and partitions/namespaces (enterprise) are not generated. The evaluator's trust base is Envoy's documented RBAC semantics with Go RE2 full-match for safe_regex. One genuine defect repaired (unescaped names in SPIFFE patterns).",
    design="§3 C14")
 
+CHECKS["C12"] = dict(level="exploration", engine="E3 grid",
+   technique="bounded-exhaustive enumeration of a CSR grammar x tokens through the real CAManager (consul provider, real FSM as raft) against a reference verdict and an independent re-parse and chain verification of every issued certificate; exhaustive histories of CA configuration updates through the real manager; explicit-state BFS over CA commands on the FSM",
+   text="Signing: 718 CSR shapes (0/1/2/3 URI SANs; service, agent, mesh-gateway, server, signing and malformed identities; trust domain ours / upper case / foreign / userinfo / prefix- and suffix-extended / with port; datacenter ours, other, escaped, case-varied; names plain, case-varied, percent-escaped incl. escaped slash, with query, fragment, trailing slash, equal to the dc segment; partitions and namespaces; extra DNS, IP, e-mail SANs and a CA basic-constraints extension) x 13 tokens are PEM-encoded, parsed with connect.ParseCSR and passed to the real CAManager.AuthorizeAndSignCertificate. Verdict must equal the reference (exactly one URI, no e-mail, supported shape, default tenancy, cluster trust domain, local datacenter, token grants write on exactly the decoded scope); every issued leaf is re-parsed by an independent SPIFFE parser and must carry exactly the authorized identity in the cluster trust domain, IsCA=false, a serial not used before, reported URI/name equal to the certificate's, and verify against the single active root in the state store. Roots: every history (depth 3 quick, 4 thorough) of 9 operations (rotation to roots A, B, forced C, generated root, config-only change, invalid and mismatched configs, unknown provider, leader failover) from two initial configurations runs through the real CAManager; after every step exactly one root is active, the manager signs under it, failed updates leave roots and config unchanged, no root is dropped, and a fresh leaf chains to the active root. FSM: BFS over 69 CA commands (root proposals with 0/1/2 active roots x index classes, roots+config with both indexes, config, serial, leaf index): non-empty root table has exactly one active root, a changed table equals the proposal exactly, roots and config change together.",
+   note="Non-canonical but unambiguous spellings (userinfo, query, fragment, host case, explicit partition on agent IDs which CE deliberately does not validate, placeholder trust domain on agent IDs) are verdict 'either': only the issued certificate's identity is checked. Signing availability after an operator supplied a key that does not match the root is counted, not judged. Vault/AWS providers and secondary-datacenter intermediates are not explored. Two genuine defects repaired.",
+   design="§3 C12")
+
 _WIP = "not claimed yet: the check described in DESIGN.md for this property is not built at this commit (work in progress, not a statement that model checking cannot apply)"
-NOT_APPLICABLE = [dict(property_id=p, reason=_WIP) for p in ("C11", "C12", "C16", "C17", "C18")]
+NOT_APPLICABLE = [dict(property_id=p, reason=_WIP) for p in ("C11", "C16", "C17", "C18")]
 
 def main():
     checks = []
